@@ -233,6 +233,7 @@ fn do_dispatch(sim: &Rc<Sim>, lp: &mut Option<EventLoop<'static, Tag>>, t: Timeo
             s.excused = false;
         }
         crate::life::dispatch_start(&mut st);
+        crate::composite::dispatch_start(&mut st);
     }
     let mut tag = Tag(sim.tag);
     let r = catch_unwind(AssertUnwindSafe(|| l.dispatch(timeout_of(t), &mut tag)));
@@ -289,6 +290,9 @@ fn model_next_deadline(st: &St) -> Option<u64> {
 }
 
 fn any_indeterminate_timer(st: &St) -> bool {
+    if st.srcs.values().any(|s| matches!(&s.k, K::Comp(k) if k.children.iter().any(|c| matches!(c, crate::composite::ChildM::Timer { .. })))) {
+        return true;
+    }
     // timers the model does not follow individually: those of indeterminate sources and the
     // timer children of transient wrappers
     st.srcs.values().any(|s| (s.indeterminate && matches!(s.k, K::Timer(_))) || matches!(&s.k, K::Trans(t) if t.children.iter().any(|c| c.is_timer)))
@@ -306,9 +310,10 @@ fn after_dispatch(sim: &Rc<Sim>, t: Timeout, ok: bool, err: Option<String>, t_st
         sim.st.borrow_mut().dispatch_error_seen = true;
         sim.st.borrow_mut().any_dispatch_error = true;
         if !expected_err {
+            let comp_retired = sim.st.borrow().srcs.values().any(|s| matches!(&s.k, K::Comp(k) if k.child_retired) && s.pe_this_dispatch > 0);
             sim.violate(
                 "dispatch.unexpected_error",
-                vec![],
+                if comp_retired { vec!["composite_child_retired".into()] } else { vec![] },
                 format!("dispatch returned an error nobody caused: {}", err.unwrap_or_default()),
             );
             return;
@@ -629,6 +634,11 @@ fn compute_must(sim: &Sim) {
             K::Sig(k) => {
                 k.pending_at_wait = k.pending;
                 if (0..4).any(|i| k.pending[i] && k.configured.contains(&(i as u8))) {
+                    must.insert(*id, Must::Callback);
+                }
+            }
+            K::Comp(k) => {
+                if crate::composite::has_cause(k, now) && !k.child_retired {
                     must.insert(*id, Must::Callback);
                 }
             }
@@ -1099,7 +1109,8 @@ fn step_invariants(sim: &Rc<Sim>, p: &Program, i: usize) {
         let live_timers = st.srcs.values().filter(|s| matches!(&s.k, K::Timer(_)) && (s.inserted || s.indeterminate)).count();
         let extra = st.extra_timer_entries;
         drop(st);
-        let trans_timers = sim.st.borrow().srcs.values().filter_map(|s| if let K::Trans(t) = &s.k { Some(t.children.iter().filter(|c| c.is_timer).count()) } else { None }).sum::<usize>();
+        let comp_timers = sim.st.borrow().srcs.values().filter_map(|s| if let K::Comp(k) = &s.k { Some(k.children.iter().filter(|c| matches!(c, crate::composite::ChildM::Timer { .. })).count()) } else { None }).sum::<usize>();
+        let trans_timers = comp_timers + sim.st.borrow().srcs.values().filter_map(|s| if let K::Trans(t) = &s.k { Some(t.children.iter().filter(|c| c.is_timer).count()) } else { None }).sum::<usize>();
         if !any_indet && stats.timer_heap_len > armed + live_timers + extra + trans_timers + 4 {
             sim.violate("timer.residue", vec![], format!("timer heap holds {} entries for {} armed timers ({} live)", stats.timer_heap_len, armed, live_timers));
             return;
